@@ -386,3 +386,102 @@ Proof.
   - rewrite g_args_shift in H5. change (g_arg1 (g_arg1 (g_args (g_head g sc) n (length l)) n) n) with (g_args (g_head g sc) n (2 + length l)) in H5.
     unfold blk_pays'. fold lo. unfold pl3, pl2, pl1 in H5. rewrite <- !app_assoc in H5. cbn [app] in H5 |- *. exact H5.
 Qed.
+
+(** ---- the leaf named objects: Mutex, Event, OperationRegion ---- *)
+Inductive lkind : Type := LMutex | LEvent | LOpReg.
+Definition lk_op (lk : lkind) : N := match lk with LMutex => aml_pOpMutex | LEvent => aml_pOpEvent | LOpReg => aml_pOpOpRegion end.
+Definition lk_info (lk : lkind) : N := match lk with LMutex => 84 | LEvent => 85 | LOpReg => 104 end.
+Definition lk_af (lk : lkind) : N := match lk with LMutex => 1289 | LEvent => 9 | LOpReg => 33686793 end.
+Definition lk_ws (lk : lkind) : list fw := match lk with LMutex => [W1] | LEvent => [] | LOpReg => [W1] end.
+(** number of TermArg arguments, parsed as the next objects and attached by connectNamedObjArgs *)
+Definition lk_nt (lk : lkind) : nat := match lk with LMutex => 0 | LEvent => 0 | LOpReg => 2 end.
+
+Lemma lk_facts lk : valid_opcode (lk_op lk) /\ lk_op lk <> aml_pOpNoop /\ lk_op lk <> opFreed /\ is_prefix_op (lk_op lk) = false /\
+  opcodeTableIndex (lk_op lk) true = Some (lk_info lk) /\ opInfo (lk_info lk) = Some (lk_op lk, 1, lk_af lk).
+Proof.
+  split; [destruct lk; (split; [discriminate|]); eexists; (split; [reflexivity|discriminate])|].
+  destruct lk; (repeat split; try discriminate; try reflexivity).
+Qed.
+
+Lemma lk_args lk : argCount (lk_af lk) = 1 + N.of_nat (length (lk_ws lk)) + N.of_nat (lk_nt lk) /\
+  argType (lk_af lk) 0 = aml_pArgTypeNameString /\
+  (forall j w, nth_error (lk_ws lk) j = Some w -> argType (lk_af lk) (1 + N.of_nat j) = fw_ty w) /\
+  (lk_nt lk <> O -> argType (lk_af lk) (1 + N.of_nat (length (lk_ws lk))) = aml_pArgTypeTermArg).
+Proof.
+  destruct lk; (split; [reflexivity|]; split; [reflexivity|]; split; [|cbn [lk_nt]; intros Hn; try (exfalso; apply Hn; reflexivity); reflexivity]);
+    intros j w Hj; destruct j as [|[|j]]; cbn [nth_error lk_ws] in Hj; try discriminate; try (inversion Hj; reflexivity); destruct j; discriminate.
+Qed.
+
+Lemma parseArg_TermArg f inf cur s : p_allBlocks s = false ->
+  parseArg (S f) inf cur aml_pArgTypeTermArg s = Ok ((None, RShort), s).
+Proof.
+  destruct inf as [[a b] c]. intros E.
+  change (parseArg (S f) (a, b, c) cur aml_pArgTypeTermArg) with
+    (mlet allBlocks <~ get p_allBlocks ;; if allBlocks then parseStrictTermArg f cur else ret (None, RShort)).
+  unfold bindM, get. rewrite E. reflexivity.
+Qed.
+
+Definition leaf_pays' (s : pstate) (lk : lkind) (off : N) (l : fxs) : list pay :=
+  let lo := lenN (enc_op (lk_op lk)) in
+  [mkPay (lk_op lk) (lk_info lk) (p_handle s) name_zero off 0 None; path_pay s (off + lo) 4] ++ fx_pays (p_handle s) (off + lo + 4) l.
+
+Lemma next_leaf f lk s g pl pre seg l rest post sc scs a :
+  let lo := lenN (enc_op (lk_op lk)) in
+  Rep (p_tree s) g pl -> g_free g = [] -> N.of_nat (length pl) + 2 + N.of_nat (length l) < InvalidIndex ->
+  at_token (p_r s) pre (enc_op (lk_op lk) ++ seg_bytes seg ++ enc_fx l ++ rest) post ->
+  map fst l = lk_ws lk -> fx_okb l = true ->
+  lead_okb (seg_lead seg) = true ->
+  p_scopeStack s = sc :: scs -> pget pl sc = Some a -> y_op a <> opFreed -> p_allBlocks s = false ->
+  wp False (parseNextObject (S (S (S (S (length l + S (S f))))))) s (fun res s' => res = ROk /\ exists t',
+    s' = with_tree (with_r s (set_offset_raw (p_r s) (lenN pre + lo + 4 + lenN (enc_fx l)))) t' /\
+    Rep t' (g_args (g_head g sc) (N.of_nat (length pl)) (1 + length l)) (pl ++ leaf_pays' s lk (lenN pre) l)).
+Proof.
+  intros lo H Hfree Hroom Hat Hws Hfx Hlead Est Hsc Hlsc Hab.
+  destruct (lk_facts lk) as (Hvalid & Hnoop & Hnf & Hnp & Hidx & Hinfo).
+  destruct (lk_args lk) as (Hcnt & Ht0 & Htj & Htt).
+  assert (Hlen3 : (length (lk_ws lk) <= 1)%nat) by (destruct lk; cbn; lia).
+  assert (Hnt2 : (lk_nt lk <= 2)%nat) by (destruct lk; cbn; lia).
+  rewrite <- Hws, map_length in Hcnt, Htt, Hlen3.
+  pose proof (rep_len_g _ _ _ H) as Hlg. pose proof (rep_len_pool _ _ _ H) as Hlp.
+  assert (Hsclt : sc < N.of_nat (length pl)) by (eapply pget_lt; eauto).
+  set (n := N.of_nat (length pl)) in *. set (af := lk_af lk) in *. set (op := lk_op lk) in *.
+  eapply (next_head _ op (lk_info lk) s g pl pre _ post sc scs a);
+    [exact H|exact Hfree|lia|exact Hat|exact Hvalid|exact Hnoop|exact Hnf|exact Hidx|exact Est|exact Hsc|exact Hlsc|].
+  intros t1 H1. fold lo.
+  set (a1 := mkPay op (lk_info lk) (p_handle s) name_zero (lenN pre) 0 None) in *.
+  set (pl1 := pl ++ [a1]) in *.
+  assert (Hl1 : length pl1 = S (length pl)) by (unfold pl1; rewrite app_length; cbn [length]; lia).
+  assert (Hn : pget pl1 n = Some a1) by apply pget_app_last.
+  eapply (objargs_other _ _ a1 (op, 1, af) _ _ pl1); [exact H1|exact Hn|exact Hnf|exact Hnp|exact Hinfo|].
+  (* argument 0: the name *)
+  pose proof (at_adv (p_r s) pre (enc_op op) _ post Hat) as Hat1. fold lo in Hat1.
+  set (pre2 := pre ++ enc_op op) in *.
+  assert (Hlpre2 : lenN pre2 = lenN pre + lo) by (unfold pre2; rewrite lenN_app; reflexivity).
+  assert (Hat2 : at_token (set_offset_raw (p_r s) (lenN pre + lo)) pre2 (enc_name (seg_name seg) ++ enc_fx l ++ rest) post).
+  { rewrite enc_seg_name. exact Hat1. }
+  eapply (args_name _ op 1 af n 0 (seg_name seg) _ (g_head g sc) pl1 pre2 (enc_fx l ++ rest) post);
+    [exact H1|apply free_g_head|lia|lia|lia|exact Ht0|exact Hat2|apply wf_seg_name; exact Hlead|rewrite slice_seg_name; lia|].
+  intros t2 H2. change (w8 (0 + 1)) with 1.
+  rewrite ?slice_seg_name, ?enc_seg_name, ?Hlpre2 in H2. rewrite ?slice_seg_name, ?enc_seg_name, ?Hlpre2. change (lenN (seg_bytes seg)) with 4.
+  (* the fixed data arguments *)
+  pose proof (at_adv _ pre2 (enc_name (seg_name seg)) (enc_fx l ++ rest) post Hat2) as A3.
+  rewrite enc_seg_name, Hlpre2 in A3. change (lenN (seg_bytes seg)) with 4 in A3.
+  set (pl2 := pl1 ++ [path_pay _ (lenN pre + lo) 4]) in *.
+  assert (Hl2 : length pl2 = S (S (length pl))) by (unfold pl2; rewrite app_length; cbn [length]; lia).
+  replace (S (length l + S (S f))) with (length l + S (S (S f)))%nat by lia.
+  eapply (args_fix l _ op 1 af n 1 _ (g_arg1 (g_head g sc) n) pl2 (pre2 ++ seg_bytes seg) rest post);
+    [exact H2|reflexivity|lia|lia|lia|lia| |exact Hfx|exact A3|].
+  { intros j w v' Hj. apply Htj. rewrite <- Hws. eapply nth_error_fst. exact Hj. }
+  intros t3 H3.
+  assert (Hlp3 : lenN (pre2 ++ seg_bytes seg) = lenN pre + lo + 4) by (rewrite lenN_app, Hlpre2; reflexivity).
+  rewrite Hlp3 in H3 |- *.
+  (* the end of the fixed arguments: either all arguments are read, or a TermArg is left for the later pass *)
+  assert (Hfin : forall t', Rep t' (g_args (g_arg1 (g_head g sc) n) n (length l)) (pl2 ++ fx_pays (p_handle s) (lenN pre + lo + 4) l) ->
+            Rep t' (g_args (g_head g sc) n (1 + length l)) (pl ++ leaf_pays' s lk (lenN pre) l)).
+  { intros t' H'. rewrite g_args_shift in H'. change (g_arg1 (g_args (g_head g sc) n (length l)) n) with (g_args (g_head g sc) n (1 + length l)) in H'.
+    unfold leaf_pays'. fold lo. unfold pl2, pl1 in H'. rewrite <- !app_assoc in H'. cbn [app] in H' |- *. exact H'. }
+  destruct (Nat.eq_dec (lk_nt lk) 0) as [Hz|Hnz].
+  - apply parseArgs_end; [lia|]. split; [reflexivity|]. exists t3. split; [reflexivity|apply Hfin; exact H3].
+  - rewrite parseArgs_go by lia. rewrite (Htt Hnz). unfold wp, bindM. rewrite parseArg_TermArg by exact Hab.
+    cbv beta iota. unfold ret. split; [reflexivity|]. exists t3. split; [reflexivity|apply Hfin; exact H3].
+Qed.
